@@ -50,6 +50,10 @@ PROPS = {
                    "the backend or the graph away from the optimum is post-dominated by a restore; snapshots are taken before anything moves and dominate "
                    "the restores; temporary fix() is released; mutators invalidate the adapter caches; _invalidate_cache covers all lazily computed fields; "
                    "the did-fit flag is written only by reset/minimize/_load_state; save/load symmetry; NexusFitter write-back after minimizing."),
+    "C13": ("c13", "The three quadrature rules are read off the canonical form of their return expressions as (left, centre, right) weights per unit bin "
+                   "width and checked against the exactness identities on [0,1] with rational arithmetic (Simpson degree 3, trapezoid/midpoint degree 1); bin "
+                   "centres/widths, antiderivative difference and numerical integration use the same edge slices; selection table; recalculation; HistFit "
+                   "scaling by the number of entries iff density; the model is rebuilt from the current container on every path."),
 }
 
 
